@@ -35,7 +35,9 @@ Definition spec_eval (v : sview) (h : list Q) : option (option Q) :=
   | SpAlma n => Some (spec_alma n (sofdec 6 0) (sofdec 85 2) h)
   | SpAlmaCustom n sg off => Some (spec_alma n sg off h)
   | SpRsi n => Some (spec_rsi n h) | SpMyRsi n => Some (spec_myrsi n h)
-  | SpCti n => if Nat.leb n (length h) then Some (spec_cti n h) else None
+  (* at R the Pearson correlation lies in [-1,1] (cti_range) and the implementation's clamp is the identity; at this
+     instance sqrt is a surrogate floored to a 2^-32 grid, so the unclamped quotient can exceed 1 by 2^-32: clamp here too *)
+  | SpCti n => Some (option_map (fun o => smin (smax o (sneg s1)) s1) (spec_cti n h))
   | SpNet n => Some (spec_net n h) | SpCog n => Some (spec_cog n h)
   | SpSs n => Some (spec_ss n h) | SpRoofing n m => Some (spec_roofing n m h)
   | SpLaguerre g => Some (spec_laguerre g h)
